@@ -6,12 +6,30 @@ only where model and gcc agree:
 
  (a) trees    statement trees by size (models/c03_trees.py) executed on every input tape up to length L; markers and
               conditions call a gcc-compiled recorder; oracle = event trace of the reference interpreter in
-              harness/c03_rt.h == trace of the gcc twin.
+              harness/c03_rt.h == trace of the gcc twin.  Layers:
+                full / core / loops   the whole statement and expression alphabet by size; besides the int tape bit C() the
+                              operands are T()/Z() and the TYPED tape bits Cc/Cl/Cf/Cd/Cld/Cp (char 0x80, long and pointer
+                              with only high bits set, 0.25f, 0.5 / -0.0, 0.5L - one per class of truth test), cost 1 each
+                typed         if, if/else, while, do, for, V() x all expression forms (&& || ?: GNU-?: , ! statement
+                              expression) with EVERY leaf ranging over C() and the six typed tape bits at no cost: size 1 =
+                              every condition context x every operand type x every pair (?:: triple) of operand types;
+                              size 2 (thorough) = every nesting of two forms.  Constraint violations (pointer vs
+                              arithmetic arms of ?:) are not generated; the interpreter carries (value as long, truth) pairs
+                duff          switch with a free-form body: case/default labels (<= 3 per switch, every shape of
+                              SWITCH_SHAPES) on any statement at any depth of if/else, while, do, for, compound and
+                              labelled statements (Duff's device), with break/continue/return/goto
  (b) switch   controlling type x case-label sets from the thresholds x GNU ranges between neighbours x default
               placement, selector = every label bound -1/0/+1; oracle = Python model of 6.8.4.2p5 == gcc twin.
- (c) scope    every assignment of declarations of one name (ordinary identifier / tag / label) to the scope chain
-              file > parameter > block > for-init > inner block with a probe after every scope entry and exit; oracle =
-              models/c03_scope.py (innermost visible declaration) == gcc twin.
+ (c) scope    models/c03_scope.py: every assignment of declarations of one name (ordinary identifier / tag / label) to
+              the scope chain file > parameter > block > for-init > inner block, the tag declaration kinds being
+              definitions (struct/union/enum) AND incomplete declarations (`struct x;`, first mention in a parameter list)
+              never completed or completed later at the same level after nested scopes closed; and (stmt family) to file
+              scope, function body, the controlling expression and the non-compound body of if/while/do/for/switch
+              (C11 6.8.4p3, 6.8.5p5) or the parameter list of a function-pointer declarator / function declaration at
+              block or file scope (6.2.1p4).  A probe after every scope entry and exit observes the ordinary binding, the
+              tag binding (sizeof where complete), the tag identity (pointer-to-incomplete compatibility via _Generic with
+              the pointers declared next to every struct/union declaration) and objects of the type (last byte survives an
+              assignment); oracle = innermost visible declaration model == gcc twin.
 """
 import os, re, itertools
 from vlib import core, twin
@@ -104,8 +122,19 @@ def robust_twin(chibicc, wd, name, cases, build, run_timeout=600, extra_units=()
 # ---------------------------------------------------------------------------------------------------------
 # (a) statement trees
 # ---------------------------------------------------------------------------------------------------------
+ALLOPS = {"and", "or", "cond", "elvis", "comma", "not", "se"}
+# the typed tape bits Cc/Cl/Cf/Cd/Cld/Cp (one per class of truth test: 8/32-bit integer, 64-bit integer, float, double,
+# long double, pointer) are operands costing 1, like T()/Z()
 FULL = {"empty": 1, "ret": 1, "goto": 1, "cgoto": 1, "label": 1, "for": (0, 1, 2), "fornocond": 1, "blk3": 1,
-        "switch": trees.SWITCH_SHAPES, "exprs": {"and", "or", "cond", "elvis", "comma", "not", "se"}, "exprleaves": 1}
+        "switch": trees.SWITCH_SHAPES, "exprs": ALLOPS, "exprleaves": 1, "tleaves": trees.TYPED_LEAVES}
+# mixed operand types: every condition leaf is C() or any typed tape bit at no cost, so size 1 holds every condition
+# context (if, if/else, while, do, for, !, ?: condition, GNU ?:, both sides of && and ||, comma, statement expression) with
+# every operand type and every PAIR (triple for ?:) of operand types; size 2 every nesting of two such forms
+TYPED = {"for": (0,), "noblk": 1, "exprs": ALLOPS, "tleaves": trees.TYPED_LEAVES, "tfree": 1}
+# Duff's device: switch with a free-form body; case/default labels (<= 3, every shape) on any statement at any depth of
+# if/else, while, do, for, compound and labelled statements, plus break/continue/return/goto
+DUFF = {"swd": 1, "for": (1,), "ret": 1, "goto": 1, "label": 1}
+DUFFDEEP = {"swd": 1, "for": (1,)}
 # reduced alphabet for the largest size: no 3-child compounds, one for-variant, three switch shapes, no T/Z operands
 CORE = {"ret": 1, "goto": 1, "label": 1, "for": (2,), "switch": [(0, "d"), ("d", 0, 1), (0, 1, 2)],
         "exprs": {"and", "or", "cond", "elvis", "comma", "se"}}
@@ -113,10 +142,11 @@ CORE = {"ret": 1, "goto": 1, "label": 1, "for": (2,), "switch": [(0, "d"), ("d",
 LOOPS = {"for": (1,), "switch": [(0, "d")]}
 LOOPSGOTO = {"ret": 1, "goto": 1, "label": 1, "for": (1,), "switch": [(0, "d")]}
 TREE_LAYERS = {
-    "quick": [("full", FULL, (0, 1, 2, 3), 4), ("loops+goto", LOOPSGOTO, (4,), 4)],
-    "thorough": [("full", FULL, (0, 1, 2, 3), 6), ("core", CORE, (4,), 5), ("loops", LOOPS, (5,), 5)],
+    "quick": [("full", FULL, (0, 1, 2, 3), 4), ("loops+goto", LOOPSGOTO, (4,), 4), ("typed", TYPED, (1,), 4), ("duff", DUFF, (1, 2, 3), 4)],
+    "thorough": [("full", FULL, (0, 1, 2, 3), 6), ("core", CORE, (4,), 5), ("loops", LOOPS, (5,), 5), ("typed", TYPED, (1, 2), 5),
+                 ("duff", DUFF, (1, 2, 3), 6), ("duffdeep", DUFFDEEP, (4,), 5)],
 }
-TREE_DECL = "int T(int); int Z(int); int C(void); int C2(void); int SEL(int); void V(long);\n"
+TREE_DECL = "int T(int); int Z(int); int C(void); int C2(void); int SEL(int); void V(long);\n" + trees.LEAF_DECL + "\n"
 
 PROGS = []        # filled in the parent before workers are forked: (layer name, L, tree)
 
@@ -315,10 +345,11 @@ def run_trees(ctx):
         for _ in lst:
             ctx.violation(sig, "trace differs from C abstract machine (interpreter == gcc): %s  %s  [%d enumerated programs shrink to this one; first: %s]"
                           % (trees.Emit(t).function("p"), line, len(lst), trees.Emit(t0).function("p")), files=tree_files(L, t), replay=TREE_REPLAY)
-    ctx.cover(tree_programs=done, tree_runs=tot["runs"], tree_runs_judged=tot["judged"], tree_paths=tot["paths"], tree_budget_cut_paths=tot["budget"],
+    ctx.cover(tree_condition_operand_types="int C(), char, long (high bits only), float, double (-0.0 false), long double, pointer (high bits only)",
+              tree_programs=done, tree_runs=tot["runs"], tree_runs_judged=tot["judged"], tree_paths=tot["paths"], tree_budget_cut_paths=tot["budget"],
               tree_nontrivial_programs=tot["nontrivial"], skipped_silent_loop_runs=tot["silent"], tree_failing_programs=len(failing),
               tree_failing_unshrunk=max(0, len(failing) - CAP), ref_rejected=ref_rejected, cc_rejected=len(rejected),
-              tree_layers="; ".join("%s sizes %s L=%d" % (n, list(s), L) for n, a, s, L in TREE_LAYERS[ctx.tier]))
+              tree_layers="; ".join("%s sizes %s L=%d: %d programs" % (n, list(s), L, sum(1 for q in PROGS if q[0] == n)) for n, a, s, L in TREE_LAYERS[ctx.tier]))
     if ctx.exhaustive and (tot["judged"] < done or tot["nontrivial"] * 3 < done):
         raise core.HarnessError("trees: vacuous (%d programs, %d judged runs, %d non-trivial)" % (done, tot["judged"], tot["nontrivial"]))
     for k in (1, len(PROGS) // 2, len(PROGS) - 1):
@@ -644,7 +675,7 @@ def run_switch(ctx):
 # ---------------------------------------------------------------------------------------------------------
 from models import c03_scope as scope
 
-SC_DECL = "long FN(out)[18]; int FN(jmp);\n"
+SC_DECL = "long FN(out)[%d]; int FN(jmp);\n" % scope.NS
 SC_DRV_OBJ = None
 SC_CASES = []
 
@@ -654,8 +685,7 @@ def build_scope_batch(cases):
     tab = [struct.pack("<q", len(cases))]
     for i, c in enumerate(cases):
         u.append(c.source(i))
-        runs = c.model()
-        tab.append(struct.pack("<36q", *(runs[0] + runs[1])))
+        tab.append(struct.pack("<%dq" % (1 + 2 * scope.NS), *c.table()))
     u.append("void (*FN(ctab)[])(short, void *) = {%s};" % ", ".join("(void (*)(short, void *))FN(f%d)" % i for i in range(len(cases))))
     u.append("int FN(nctab) = %d;" % len(cases))
     return "\n".join(u) + "\n", "int c03_unused;\n", {"table.bin": b"".join(tab)}
@@ -687,11 +717,14 @@ def _scope_fail_worker(args):
 def scope_sig(c, st):
     if st[0] == "R":
         return "C03|scope|%s|rejected:%s:%s" % (c.cid(), st[1], st[2])
-    mode, site, want, got = st[1], st[2], st[3], st[4]
+    mode, k, want, got = st[1], st[2], st[3], st[4]
     if got == "signal":
         return "C03|scope|%s|signal" % c.cid()
-    ns = "ordinary" if site % 2 == 0 else "tag"
-    return "C03|scope|%s|at:%s|binds:%s,want:%s" % (ns, scope.SITE_NAMES[site // 2] + ("+goto" if mode else ""), scope.decode(int(got), c), scope.decode(want, c))
+    site, slot = k // scope.NSLOT, k % scope.NSLOT
+    where = c.site_name(site) + ("+goto" if mode and c.family == "chain" else "")
+    if c.family == "stmt":
+        where = c.kw + ":" + where
+    return "C03|scope|%s|at:%s|binds:%s,want:%s" % (scope.SLOT_NAMES[slot], where, c.decode(slot, int(got)), c.decode(slot, want))
 
 
 SC_REPLAY = ("$CHIBICC -DPFX=cc_ -c -o cc.o unit.c || exit 1\n"
@@ -779,14 +812,26 @@ def run_scope(ctx):
             desc = "valid program rejected (%s status %s: %s): %s" % (st[1], st[2], st[3], c.cid())
             rp = "$CHIBICC -DPFX=cc_ -c -o cc.o unit.c && exit 0; exit 1"
         else:
-            desc = "identifier binds to the wrong declaration: chain %s, run jmp=%d, probe %d (%s): want %s got %s" % (c.cid(), st[1], st[2], scope.SITE_NAMES[st[2] // 2], st[3], st[4])
+            desc = "identifier binds to the wrong declaration: %s %s, run jmp=%d, probe %d (%s, %s): want %s got %s" % (
+                c.family, c.cid(), st[1], st[2], c.site_name(st[2] // scope.NSLOT) if st[2] >= 0 else "-", scope.SLOT_NAMES[st[2] % scope.NSLOT], st[3], st[4])
             rp = SC_REPLAY
         desc += "  [%d enumerated cases shrink to this one; first: %s]" % (len(lst), c0.cid())
         for _ in lst:
             ctx.violation(sig, desc, files={"unit.c": twin.PRELUDE + u, "table.bin": files["table.bin"]}, replay=rp)
     ctx.cover(scope_cases=done, scope_runs=tot["evals"], scope_judged=tot["judged"], scope_nontrivial=tot["nontrivial"], scope_failing_cases=len(failing),
-              scope_bounds="chain file>parameter>block>for-init>for-body; ordinary x in none/object/typedef/enumerator, tag x in none/struct/union/enum per level, label x in none/block/for-body; "
-                           + ("at most 3 declarations (labels with at most 2)" if ctx.tier == "quick" else "all combinations") + "; 9 probe sites x 2 name spaces, run with and without goto x")
+              scope_chain_cases=sum(1 for c in SC_CASES if c.family == "chain"), scope_stmt_cases=sum(1 for c in SC_CASES if c.family == "stmt"),
+              scope_failing_unshrunk=max(0, len(failing) - CAP),
+              scope_bounds="chain file>parameter>block>for-init>for-body: ordinary x in none/object/typedef/enumerator, tag x in none/struct/union/enum/"
+                           "sfwd/ufwd (`struct x;` incomplete, never completed)/sfwdc/ufwdc (completed later at the same level) per level "
+                           "(parameter level: first mention `struct x *p`, completed by a definition in the body), label x in none/block/for-body; "
+                           + ("at most 3 declarations (labels with at most 2)" if ctx.tier == "quick" else
+                              "at most 5 declarations (labels with at most 4) plus all combinations of the definition kinds") +
+                           "; 11 probe sites, run with and without goto x.  stmt: if/while/do/for/switch with declarations (tag struct/union/enum, enumerator) "
+                           "in the controlling expression and in the non-compound body, function-pointer declarator / function declaration at block and file "
+                           "scope with declarations in the parameter list, x file scope x function body, at most "
+                           + ("3" if ctx.tier == "quick" else "5") + " declarations; probes before / in condition / in body / in else or increment / after.  "
+                           "4 observables per site: ordinary binding, tag sizeof (+ sizeof *q), tag identity (_Generic over the pointers declared next "
+                           "to each struct/union declaration), object copy")
     if ctx.exhaustive and tot["judged"] < done - len(failing):
         raise core.HarnessError("scope: vacuous (%d cases, %d judged runs)" % (done, tot["judged"]))
     ctx.sample({"scope_case": SC_CASES[len(SC_CASES) // 2].cid(), "source": SC_CASES[len(SC_CASES) // 2].source(0)}, limit=16)
@@ -804,7 +849,8 @@ def run(ctx):
     ctx.cover(evaluations=tot["runs"], distinct_nontrivial=tot["nontrivial"],
               rule="a case is one generated function; it is evaluated on every input (tape / selector) of its bounded input space; "
                    "non-trivial = the reference model yields at least two different observable results over that input space "
-                   "(trees: >= 2 distinct complete traces; switch: >= 2 distinct results; scope: >= 2 distinct probe values) "
+                   "(trees: >= 2 distinct complete traces; switch: >= 2 distinct results; scope: the name denotes >= 2 different "
+                   "declarations of one name space over the probe sites) "
                    "and model and gcc agree")
     ctx.assume("gcc 12 -O0 and the reference models agree on every judged run (enforced; disagreement = harness error)")
     ctx.assume("GNU extensions (statement expressions, a ?: b, case ranges, labels as values) have the semantics documented by gcc")
